@@ -50,3 +50,29 @@ Example C18_example :
   | None => False
   end.
 Proof. vm_compute. reflexivity. Qed.
+
+(* The bound does not depend on the memory model: the reader program of Shm/MachineGen.v run over ANY
+   view type with ANY load and fence functions - whatever values its loads return, consistent with a
+   memory model or not - ends every call within the same number of accesses.  (The machine of
+   Machine.v and the standard release/acquire semantics are two instances.) *)
+From CB Require Import MachineGen MachineGenSys.
+Open Scope Z_scope.
+
+Theorem C18_step_decreases_whatever_the_memory_does :
+  forall (V : Type) (rd : list event -> V -> loc -> ord -> option nat -> option (Z * nat * V)) (fc : V -> ord -> V)
+         c L (r : grst V) ch r' it,
+  budget_ok (g_pc r) -> todo_ok c (g_pc r) ->
+  gr_step rd fc c L r ch = Some (r', it, None) ->
+  0 <= mu c (g_pc r') < mu c (g_pc r) /\ budget_ok (g_pc r') /\ todo_ok c (g_pc r').
+Proof. exact program_step_decreases. Qed.
+
+Theorem C18_bounded_whatever_the_memory_does :
+  forall (V : Type) (rd : list event -> V -> loc -> ord -> option nat -> option (Z * nat * V)) (fc : V -> ord -> V)
+         c inputs (r : grst V) n ret r',
+  g_pc r = RIdle -> program_call V rd fc c r inputs = Some (n, ret, r') ->
+  Z.of_nat n <= 2 + Z.of_N (c_retries c) * iter_cost c.
+Proof.
+  intros V rd fc c inputs r n ret r' PC H.
+  pose proof (program_call_bounded V rd fc c inputs r n ret r') as B. rewrite PC in B.
+  apply (B I I H).
+Qed.
